@@ -318,7 +318,7 @@ def _run_case(case):
             if cond_amp > 1e4:
                 n_illcond += 1
                 continue
-            if case["calib"] == "dynamic" and case["init"] == "exact" and h_min ** q < 2.0 ** -50:
+            if case["calib"] == "dynamic" and case["init"] == "exact" and h_min ** q < 2.0 ** -40:
                 # dynamic calibration from an exact Taylor initial mean: the residual is O(h^q) of its terms, i.e. below the rounding
                 # level of float64 for this grid: the calibrated scale is rounding noise (or exactly zero: known finding F10 of C01)
                 n_below += 1
